@@ -18,19 +18,20 @@ RULE = ('complete enumeration of the live geodepy.constants module: every Transf
         'of ITRF sets at every reference epoch occurring in the catalogue (chained = direct within 0.15 mm / 0.015 ppb / 0.015 mas '
         'and per year); monitors on __neg__, __add__ (labels and rates kept, parameters advanced by rate * days/365.25) and '
         'iers2trans (mm->m, ppb->ppm, mas->arcsec with reversed rotation signs) fed with shipped and random sets/tuples. '
-        'distinct = constants + pairs + triples x epochs + random-call classes')
+        'The enumeration is made twice: on the catalogue as imported and on the catalogue after every constant has been passed through conform7/conform14/the wrappers, negated and moved in time (at and off its reference epoch, an odd number of times).  distinct = constants + pairs + triples x epochs + random-call classes')
 ASSUMPTIONS = ['first-order composition of small-parameter Helmert sets: chained parameters = sum of the parameters at a common epoch '
                '(second-order terms are < 1e-9 of the tolerances for ITRF sets)',
                'naming convention <from>_to_<to>[_suffix] as stated in geodepy/constants.py']
 EXHAUSTIVE = True
-REQUIRED_COUNTERS = ['same_label_add_sequences', 'constants_checked', 'pairs_checked', 'triples_checked', 'neg_calls', 'add_calls', 'iers_calls']
+REQUIRED_COUNTERS = ['catalogue_constants_used_before_enumeration', 'same_label_add_sequences', 'constants_checked', 'pairs_checked', 'triples_checked', 'neg_calls', 'add_calls', 'iers_calls']
 NAME = re.compile(r'^([a-z]+[0-9]+)_to_([a-z]+[0-9]+)(_[a-z]+)?$')
 TOL = {'t': F(15, 100000), 's': F(15, 1000000), 'r': F(15, 1000000)}     # m, ppm, arcsec  (0.15 mm, 0.015 ppb, 0.015 mas)
 
 
 def plan(tier, seed):
     n = 400 if tier == 'quick' else 6000
-    return [{'kind': 'enumerate'}] + [{'kind': 'random', 'n': n} for _ in range(3 if tier == 'quick' else 15)]
+    return [{'kind': 'enumerate'}, {'kind': 'enumerate', 'after_use': True}] + \
+        [{'kind': 'random', 'n': n} for _ in range(3 if tier == 'quick' else 15)]
 
 
 def catalogue(ns):
@@ -41,6 +42,33 @@ def catalogue(ns):
 def tol_of(p):
     base = p.replace('d_', '')
     return TOL['t'] if base[0] == 't' else (TOL['s'] if base == 'sc' else TOL['r'])
+
+
+def use_catalogue(ns, ctx, rnd):
+    """The catalogue as it stands after it has been used: every shipped set is passed through the transformation functions
+    (at its reference epoch, at other epochs, once and an odd number of times, with and without covariance), negated and
+    moved in time.  None of this is judged here (C06/C07 do that); the relations are then enumerated on what is left."""
+    import numpy as np
+    T = ns.transform
+    V = np.diag([1e-4, 4e-4, 9e-4])
+    pt = (-4052051.7643, 4212836.2017, -2545106.0245)
+    for name, t in catalogue(ns).items():
+        ctx.count('catalogue_constants_used_before_enumeration')
+        core.unjudged(ctx, T.conform7, *pt, t)
+        core.unjudged(ctx, T.conform7, *pt, t, V.copy())
+        core.unjudged(ctx, lambda a: -a, t)
+        if isinstance(t.ref_epoch, datetime.date):
+            for ep in (t.ref_epoch, datetime.date(2025, 7, 1), t.ref_epoch, datetime.date(1994, 1, 1), t.ref_epoch,
+                       datetime.date(rnd.randint(1985, 2040), rnd.randint(1, 12), rnd.randint(1, 28))):
+                core.unjudged(ctx, T.conform14, *pt, ep, t)
+                core.unjudged(ctx, lambda a, b: a + b, t, ep)
+            core.unjudged(ctx, T.conform14, *pt, datetime.date(2021, 3, 4), t, V.copy())
+    for ep in (datetime.date(2020, 1, 1), datetime.date(2018, 1, 1), datetime.date(2020, 1, 1)):
+        core.unjudged(ctx, T.transform_atrf2014_to_gda2020, *pt, ep)
+        core.unjudged(ctx, T.transform_gda2020_to_atrf2014, *pt, ep)
+    core.unjudged(ctx, T.transform_gda2020_to_atrf2014, *pt, datetime.date(2020, 1, 1))
+    core.unjudged(ctx, T.transform_mga94_to_mga2020, 53, 386352.3979, 7381850.7689, 586.0, V.copy())
+    core.unjudged(ctx, T.transform_mga2020_to_mga94, 53, 386353.2343, 7381852.2986, 587.5, V.copy())
 
 
 def enumerate_catalogue(ns, ctx):
@@ -267,6 +295,8 @@ def run_shard(spec, ctx):
     ns = core.load_repo()
     rnd = random.Random('%s-%s-%s' % (ID, spec['seed'], spec['shard']))
     if spec['kind'] == 'enumerate':
+        if spec.get('after_use'):
+            use_catalogue(ns, ctx, rnd)
         enumerate_catalogue(ns, ctx)
     else:
         run_random(ns, ctx, rnd, spec['n'])
